@@ -89,16 +89,54 @@ def check_one(case, ctx, deep):
                 ctx.check(c2.extent == by[i].extent and tuple(c2.objects) == wo and tuple(c2.properties) == wp
                           and [a.index for a in c2.atoms] == [a.index for a in by[i].atoms], tag + '/labels', plain,
                           lambda: f'{tag}: concept {c2.extent}: labels {c2.objects!r} / {c2.properties!r}, want {wo!r} / {wp!r}')
-        coatoms = len(upper and ref.covers()[1][k - 1])
-        head = f'<Lattice object of {len(upper[0])} atoms {k} concepts {coatoms} coatoms at '
-        ctx.check(repr(lat).startswith(head), 'repr(lattice)', plain, lambda: f'repr = {repr(lat)!r}, want {head}...')
+        ctx.call('repr(lattice)', plain, repr, lat)   # must be defined; its wording is not part of the statement
+
+
+def big_boolean(ctx, n):
+    """The Boolean lattice 2**n (contranominal scale) against its closed form: every subset S of objects is an extent
+    with intent {p_j : j not in S}; the object o_i labels the atom {o_i}, the property p_j the coatom without o_j;
+    concept.atoms are the singletons of S in object order."""
+    from vlib import bigcases
+    case = bigcases.contranominal(n)
+    plain = {'family': 'contranominal', 'n': n}
+    ctx.case(plain, True, ['big-boolean'])
+    maps = lib.Maps(case)
+    context = ctx.call('Context()', plain, lib.context_of, case, False)
+    lattice = ctx.call('context.lattice', plain, lambda: context.lattice)
+    ctx.check(len(lattice) == 1 << n, 'big/len', plain, lambda: f'{len(lattice)} concepts, want {1 << n}')
+    full = (1 << n) - 1
+    seen = set()
+    atom_of = {}
+    for c in lattice:
+        S = maps.omask(c.extent)
+        seen.add(S)
+        ctx.check(maps.pmask(c.intent) == full ^ S, 'big/intent', plain, lambda: f'concept {c.extent}: intent {c.intent}')
+        single = S and not S & (S - 1)
+        co = (full ^ S) and not (full ^ S) & ((full ^ S) - 1)
+        want_o = (case['o'][S.bit_length() - 1],) if single else ()
+        want_p = (case['p'][(full ^ S).bit_length() - 1],) if co else ()
+        ctx.check(tuple(c.objects) == want_o and tuple(c.properties) == want_p, 'big/labels', plain,
+                  lambda: f'concept {c.extent}: labels {c.objects!r} / {c.properties!r}, want {want_o!r} / {want_p!r}')
+        if single:
+            atom_of[S] = c
+    ctx.check(len(seen) == 1 << n, 'big/extents', plain, 'not every subset of objects is an extent exactly once')
+    for c in lattice:
+        S = maps.omask(c.extent)
+        want = [atom_of[1 << i] for i in range(n) if S >> i & 1]
+        got = list(c.atoms)
+        ctx.check(len(got) == len(want) and all(a is b for a, b in zip(got, want)), 'big/atoms', plain,
+                  lambda: f'concept {c.extent}: atoms {[a.extent for a in got]}, want the singletons of its extent')
 
 
 def plan(tier, seed):
-    return tablecheck.plan(tier, seed, hyp_quick=(12, 200), hyp_thorough=(16, 2000), wide=True, odd=True)
+    tasks = tablecheck.plan(tier, seed, hyp_quick=(12, 200), hyp_thorough=(16, 2000), wide=True, odd=True)
+    return [{'kind': 'big-boolean', 'n': 14 if tier == 'quick' else 15}] + tasks
 
 
 def run(task, ctx):
+    if task['kind'] == 'big-boolean':
+        ctx.guarded(big_boolean, ctx, task['n'])
+        return
     tablecheck.run(task, ctx, check_one)
 
 
